@@ -1841,13 +1841,23 @@ impl TypeChecker {
     }
 
     fn neg(&mut self, span: Span, a: TyID) -> TypeResult<()> {
+        self.inner_neg(span, a, &mut Vec::new())
+    }
+
+    fn inner_neg(&mut self, span: Span, a: TyID, seen: &mut Vec<TyID>) -> TypeResult<()> {
+        // A tuple type can (illegally) contain itself.
+        let a = self.find(a);
+        if seen.contains(&a) {
+            return Ok(());
+        }
+        seen.push(a);
         match self.find_type(a) {
             Type::Unknown | Type::Int | Type::Float => Ok(()),
 
             // Tuples are negated element-wise, like the other arithmetic operators.
             Type::Tuple(a) => {
                 for a in a.iter() {
-                    self.neg(span, *a)?;
+                    self.inner_neg(span, *a, seen)?;
                 }
                 Ok(())
             }
